@@ -184,10 +184,37 @@ fn check_set(seed: u64, idx: u64, k: usize, rep: &mut Report) {
         }
     }
     // assignments permuted inside modules
+    // (second pass: every assignment carries a leading comment, which becomes its doc text and must travel with it)
+    let with_docs = |text: &str| -> String {
+        let mut out = String::new();
+        for l in text.lines() {
+            let first = l.split_whitespace().next().unwrap_or("");
+            if !l.contains("DEFINITIONS") && first != "END" && first != "IMPORTS" && first != "EXPORTS" && !first.is_empty() {
+                out.push_str(&format!("-- about {first}\n"));
+            }
+            out.push_str(l);
+            out.push('\n');
+        }
+        out
+    };
+    let base_docs_src = vec![with_docs(&base_src[0])];
+    let base_docs = key_of(&base_docs_src, &cfg);
     for (rel, s) in permuted_assignments(&set, &mut rng, k) {
         let srcs = vec![s.render().text];
         let kk = key_of(&srcs, &cfg);
         record(&rel, &srcs, &kk, rep);
+        let dsrcs = vec![with_docs(&srcs[0])];
+        let dk = key_of(&dsrcs, &cfg);
+        rep.evaluations += 1;
+        rep.count("compared[assignment-permutation-with-comments]", 1);
+        rep.nontrivial.insert(hash_str(&format!("{rel}+comments|{}", dsrcs[0])));
+        if let Some(d) = diff_kind(&base_docs, &dk) {
+            rep.violations.push(Violation {
+                sig: format!("c11|assignment-permutation-with-comments|{d}"),
+                what: format!("{rel}, every assignment preceded by a comment: {d}: {}", first_diff(&base_docs.generated, &dk.generated)),
+                replay: json!({"baseline_sources": base_docs_src, "variant_sources": dsrcs, "relation": format!("{rel}+comments")}),
+            });
+        }
     }
     let n = set.modules.len();
     if n > 1 {
